@@ -1,6 +1,7 @@
 """pyvc verification driver pieces: set-up of symbolic arguments, running bodies and summaries,
 refinement VCs (body == contract), solving with a small portfolio."""
 import ast
+import itertools
 import os
 import subprocess
 import tempfile
@@ -112,6 +113,11 @@ def heap_eq(ex, h1, h2, oids):
     return z3.And([f for _, f in parts]) if parts else z3.BoolVal(True)
 
 
+def _mentions(f, c):
+    from pyvc.exec import _consts_of
+    return any(c.eq(k) for k in _consts_of(f))
+
+
 def split_defs(ex, pc, base):
     defs, conds = [], []
     for f in pc[base:]:
@@ -132,7 +138,12 @@ def refine_vcs(ex, label, st0, body_outs, spec_outs):
         alts = []
         cands = [s for s in spec_outs if s.kind == kind and (kind != "raise" or s.exc == b.exc)]
         what = f"{kind}" + (f"({b.exc})" if kind == "raise" else "")
-        if len(cands) == 1:
+        ec = []
+        for s in cands:
+            for c in s.st.env.get("__exist__", []):
+                if not any(c.eq(k) for k in ec):
+                    ec.append(c)
+        if len(cands) == 1 and not ec:
             # the common case: one contract alternative of this kind -> one small VC per view component
             s = cands[0]
             _, conds = split_defs(ex, s.st.pc, base)
@@ -154,19 +165,51 @@ def refine_vcs(ex, label, st0, body_outs, spec_outs):
                 continue
             alts.append(z3.And(conds + same))
         goal = z3.Or(alts) if alts else z3.BoolVal(False)
+        if ec:
+            goal = z3.Exists(ec, goal)  # witnesses of the contract's nondeterministic choices
         ex.ctx.oblige(f"{label}/refines#{i}:{what}", b.st.pc + spec_defs, goal, "refines")
     # completeness of raises: whenever the contract says it raises, the body does not return normally is implied by
     # determinism: each body outcome matched exactly one contract alternative under its own path condition.
 
 
 # ------------------------------------------------------------------ solving
+def expand_finite(f, ctx, memo):
+    """replace every quantifier over the (finite, enumerated) Name sort by the conjunction/disjunction of its
+    instances: the query becomes quantifier-free and z3 decides it (used for counter-models only)."""
+    key = f.get_id()
+    if key in memo:
+        return memo[key][1]
+    if z3.is_quantifier(f):
+        n = f.num_vars()
+        if all(f.var_sort(i) == ctx.Name for i in range(n)) and not f.is_lambda():
+            # top-down: instantiate the outermost binder first (instances are closed), then expand inside each instance
+            insts = []
+            for combo in itertools.product(ctx.name_consts, repeat=n):
+                insts.append(expand_finite(z3.substitute_vars(f.body(), *reversed(combo)), ctx, memo))
+            r = z3.And(insts) if f.is_forall() else z3.Or(insts)
+        else:
+            r = f
+    elif z3.is_app(f) and f.num_args() > 0:
+        ch = [expand_finite(c, ctx, memo) for c in f.children()]
+        r = f.decl()(*ch) if any(not a.eq(b) for a, b in zip(ch, f.children())) else f
+    else:
+        r = f
+    memo[key] = (f, r)  # keep f alive: z3 re-uses the ids of collected terms
+    return r
+
+
 def solve(ctx, ob, timeout_ms=20000):
     t0 = time.time()
     s = z3.Solver()
     s.set(timeout=timeout_ms)
-    s.add(ctx.axioms)
-    s.add(ob["hyps"])
-    s.add(z3.Not(ob["goal"]))
+    if ctx.finite:
+        memo = {}
+        for f in list(ctx.axioms) + list(ob["hyps"]) + [z3.Not(ob["goal"])]:
+            s.add(expand_finite(f, ctx, memo))
+    else:
+        s.add(ctx.axioms)
+        s.add(ob["hyps"])
+        s.add(z3.Not(ob["goal"]))
     r = s.check()
     res = {"id": ob["id"], "kind": ob["kind"], "time": 0.0, "solver": "z3-5.1(api)"}
     if r == z3.unsat:
@@ -183,7 +226,7 @@ def solve(ctx, ob, timeout_ms=20000):
         res["detail"] = s.reason_unknown()
         # portfolio: the same query as SMT-LIB text to the other installed solvers
         smt = s.to_smt2()
-        for name, cmd in (("z3-4.8.12", ["/usr/bin/z3", "-T:20", "-smt2"]), ("cvc5-1.0.3", ["/usr/bin/cvc5", "--tlimit=20000", "--lang=smt2"])):
+        for name, cmd in () if os.environ.get("PYVC_NO_PORTFOLIO") else (("z3-4.8.12", ["/usr/bin/z3", "-T:20", "-smt2"]), ("cvc5-1.0.3", ["/usr/bin/cvc5", "--tlimit=20000", "--lang=smt2"])):
             try:
                 with tempfile.NamedTemporaryFile("w", suffix=".smt2", delete=False) as f:
                     f.write(smt)
